@@ -46,6 +46,12 @@ mod handshake_schema {
     include!(concat!(env!("OUT_DIR"), "/noise.rs"));
 }
 
+/// Verification hooks: the prost-generated handshake payload messages (re-export only).
+#[cfg(feature = "verif")]
+pub use handshake_schema::{
+    NoiseExtensions as VerifNoiseExtensions, NoiseHandshakePayload as VerifNoiseHandshakePayload,
+};
+
 /// Noise parameters.
 const NOISE_PARAMETERS: &str = "Noise_XX_25519_ChaChaPoly_SHA256";
 
